@@ -3,7 +3,7 @@ CONSTANTS
   Clients = {1, 2, 3, 4, 5, 6, 7, 8}
   MaxMsgs = 100000
   MaxPings = 100000
-  Workers = {1, 2, 3, 4, 5, 6, 7, 8}
+  Workers = {1, 2, 3, 4, 5, 6, 7, 8, 9, 10, 11, 12, 13, 14, 15, 16}
   Heartbeat = TRUE
   Reply <- TrReply
   ExtScript <- TrExt
